@@ -1,5 +1,7 @@
 package graphql
 
+import "github.com/graphql-go/graphql/verifhook"
+
 type SchemaConfig struct {
 	Query        *Object
 	Mutation     *Object
@@ -245,6 +247,8 @@ func (gq *Schema) IsPossibleType(abstractType Abstract, possibleType *Object) bo
 	}
 
 	if typeMap, ok := possibleTypeMap[abstractType.Name()]; !ok {
+		verifhook.Yield(verifhook.SchemaPossibleTypeBuild)
+		verifhook.Count(verifhook.SchemaPossibleTypeBuild)
 		typeMap = map[string]bool{}
 		for _, possibleType := range gq.PossibleTypes(abstractType) {
 			typeMap[possibleType.Name()] = true
